@@ -5,14 +5,15 @@ H = "harness/C21_dispatch.py"
 
 def run(ctx: Ctx) -> int:
     t = ctx.pick(120, 400)
-    jobs = [Job(H, fn, timeout=t) for fn in ("h_binary", "h_unary", "h_every_dunder", "h_tables")]
+    jobs = [Job(H, fn, timeout=t) for fn in ("h_binary", "h_unary", "h_every_dunder", "h_tables", "h_constants")]
     ctx.functions_encoded = ["tracing/object.py: DunderMixin (every dunder, read from the class at run time), binary_operation, unary_operation, binary_table/"
                              "reverse_binary_table/unary_table", "checker/expr_checker.py: ExprSynthesizer._synthesize_binary, binary_table, unary_table",
-                             "tracing/util.py: capture_guppy_errors"]
+                             "tracing/util.py: capture_guppy_errors",
+                             "tracing/unpacking.py: guppy_object_from_py (scalar constants: type and payload independent of the constants converted before, 10 constants incl. 2/2.0, 1/True, 0.0/-0.0, all ordered pairs)"]
     ctx.bounds = {"operators": "18 binary (12 arithmetic/bitwise, 6 comparisons), 3 unary + abs/bool/int/float, every dunder DunderMixin defines",
                   "operands": "traced value or Python constant on either side (at least one traced)", "type-check outcomes": "direct and reflected method each succeed or fail"}
     ctx.outside_claim = ["the values computed (follow from identical dispatch plus C04)", "containers, struct handling, len(), calls to Guppy functions (trace_call needs a HUGR builder)",
-                         "guppy_object_from_py's constant conversion"]
+                         "guppy_object_from_py beyond scalar constants (tuples, lists, structs need HUGR ops)"]
     ctx.assumptions = ["stand-ins for the tracing state and for Globals.get_instance_func record (receiver, method, argument) and fail on demand",
                        "the Python data model table written in the harness (which dunder means what)"]
     ctx.crosshair(jobs)
